@@ -5,7 +5,8 @@ export GOFLAGS=-mod=mod GOPROXY=off GOSUMDB=off GOTOOLCHAIN=local
 S="$1"
 V="$(cd "$(dirname "$0")/.." && pwd)"
 mkdir -p "$S"
-rsync -a --delete --exclude .git /repo/ "$S/repo/"
+REPO="${DSIM_REPO:-/repo}"
+rsync -a --delete --exclude .git "$REPO/" "$S/repo/"
 mkdir -p "$S/repo/zsimrt"
 cp $V/sim/zsimrt/*.go "$S/repo/zsimrt/"
 if [ ! -x $V/bin/instrument ] || [ $V/sim/instrument/main.go -nt $V/bin/instrument ]; then
@@ -24,5 +25,5 @@ open(p,'w').write(s)
 PY
 rsync -a --delete $V/sim/harness/ "$S/harness/"
 cd "$S/harness"
-cat /repo/go.sum $V/sim/harness/go.sum.extra > go.sum
+cat "$REPO/go.sum" $V/sim/harness/go.sum.extra > go.sum
 go1.26.8 test -c -trimpath -o "$S/harness.test" .
